@@ -108,6 +108,14 @@ Theorem C09_pub_priv_commute : forall (nd : node) (k i : Z) (ap : bool),
     m_subkey_raw (neuter nd) i false ap = Ret (neuter child).         (* the public parent derives the same node *)
 Proof. exact (pub_priv_commute pt padd pO smul pG order pt_eqb sec hmac512 hash160 loop_fuel order_range smul_add smul_mod smul_zero pt_eqb_spec hmac_len hash160_len fuel_pos). Qed.
 
+(* ... and along whole paths of non-hardened indices (hypothesis at every step, on the node reached there) *)
+Theorem C09_pub_priv_commute_path : forall (path : list Z) (nd : node) (ap : bool),
+  wf nd -> commute_path_ok pt padd pO smul pG order pt_eqb sec hmac512 hash160 loop_fuel nd path ->
+  exists c, derive_raw pt padd pO smul pG order pt_eqb sec hmac512 hash160 loop_fuel nd (map (fun i => (i, false, true)) path) = Ret c /\
+            derive_raw pt padd pO smul pG order pt_eqb sec hmac512 hash160 loop_fuel (neuter nd) (map (fun i => (i, false, ap)) path)
+              = Ret (neuter c).
+Proof. exact (pub_priv_commute_path pt padd pO smul pG order pt_eqb sec hmac512 hash160 loop_fuel order_range smul_add smul_mod smul_zero pt_eqb_spec hmac_len hash160_len fuel_pos). Qed.
+
 (* outside that hypothesis: the BIP has no key on either side; the private side hashes again with 01 || I_R || index,
    the public side continues with I_L mod n and raises only for the point at infinity.  (Documented, not a finding: for
    HMAC-SHA512 and secp256k1 the event has probability about 2^-127 per derivation.) *)
@@ -263,7 +271,7 @@ Proof.
     end).
 Qed.
 Theorem C09_mismatching_rows :
-  map row_name (filter (fun r => codec_mismatch (row_net r)) bip_prefix_table) =
+  map row_name mismatch_rows =      (* mismatch_rows = filter (fun r => codec_mismatch (row_net r)) bip_prefix_table *)
   [("GRS", 49%N); ("GRS", 84%N); ("GRSRT", 49%N); ("GRSRT", 84%N); ("TGRS", 49%N); ("TGRS", 84%N)]%string.
 Proof. exact mismatch_rows_are. Qed.
 
@@ -313,6 +321,7 @@ Print Assumptions C09_ckd_is_bip32.
 Print Assumptions C09_path_is_bip32.
 Print Assumptions C09_serialization_is_bip32.
 Print Assumptions C09_pub_priv_commute.
+Print Assumptions C09_pub_priv_commute_path.
 Print Assumptions C09_divergence_when_IL_ge_n.
 Print Assumptions C09_hardened_refused_on_public.
 Print Assumptions C09_metadata.
